@@ -273,7 +273,7 @@ class Search:
 
     def run(self, tier, rng):
         self.rng = rng
-        self.p_sym, self.p_nonrne = (0.08, 0.10) if tier == "thorough" else (0.06, 0.08)
+        self.p_sym, self.p_nonrne = (0.25, 0.30) if tier == "thorough" else (0.06, 0.08)
         c, ref, z3 = self.c, self.ref, self.ref.z3
         RM, D, F = ref.RM, ref.D, ref.F
         thorough = tier == "thorough"
